@@ -28,7 +28,8 @@ type bseg struct {
 	order string // enc: LE / BE / - (single byte)
 	width Affine // length in bytes (enc: constant; bytes: len(v))
 	cut   *Affine
-	cond  bool // written under a condition / in a loop
+	boff  int64 // bytes / byte-array enc: offset of this part within the bytes of v
+	cond  bool  // written under a condition / in a loop
 	at    ssa.Instruction
 }
 
@@ -135,6 +136,67 @@ func (d *deepView) byteSeq(v ssa.Value, fr *frame, depth int) ([]bseg, bool) {
 		if x.High != nil {
 			h := d.affine(x.High, r.fr, nil, 0)
 			hi = &h
+		}
+		// constant bounds over constant-width segments: byte runs may be cut anywhere
+		if lo.isConst() && (hi == nil || hi.isConst()) {
+			byteRun := func(sg bseg) bool {
+				if sg.kind == "bytes" || sg.kind == "zero" {
+					return true
+				}
+				if sg.kind == "enc" {
+					// a byte array encodes to its bytes whatever the byte order
+					if arr, isArr := ir.StripConv(sg.v.v).Type().Underlying().(*types.Array); isArr && binarySize(arr.Elem()) == 1 {
+						return true
+					}
+					return sg.order == "-" && sg.width.isConst() && sg.width.K == 1
+				}
+				return false
+			}
+			var out []bseg
+			pos := int64(0)
+			okCut := true
+			for _, sg := range inner {
+				if !sg.width.isConst() {
+					// everything wanted must lie before a variable segment
+					if hi == nil || pos < hi.K {
+						okCut = false
+					}
+					break
+				}
+				a, b := pos, pos+sg.width.K
+				pos = b
+				if hi != nil && a >= hi.K {
+					break
+				}
+				if b <= lo.K {
+					continue
+				}
+				ca, cb := a, b
+				if ca < lo.K {
+					ca = lo.K
+				}
+				if hi != nil && cb > hi.K {
+					cb = hi.K
+				}
+				if ca == a && cb == b {
+					out = append(out, sg)
+					continue
+				}
+				if !byteRun(sg) {
+					okCut = false
+					break
+				}
+				part := sg
+				part.boff = sg.boff + (ca - a)
+				part.width = constAffine(cb - ca)
+				if part.kind == "enc" {
+					part.kind = "bytes"
+				}
+				out = append(out, part)
+			}
+			if okCut && (hi == nil || pos >= hi.K) {
+				return out, true
+			}
 		}
 		pos := constAffine(0)
 		var out []bseg
